@@ -12,6 +12,7 @@ builds the model (one `add(patch, raise_on_twins=twins)` per patch), then
 * names on `boundary()` round-robin, `faces()` → `[[n0,n1,n2,n3,owner,neighbor,name]…]`
 * `OpenFOAM.write` ordering          → `[[faces…], [[name,nFaces,startFace]…], declared, ninternal]`
 * `IFEMWriter.connections()`         → `[[master,slave,midx,sidx,orient]…]`
+* `fguard`: the decidable guard `facesGuardB` of `C18_faces_assembly` (with `faces`)
 * `plans` → `encPlans` (ownership of every codimension-1 section as `plansOfObjs` states it)
 Every part is an `err:<Exception>` word when the code raises there; parts not asked for in `what`
 are the word `skip`.
@@ -38,7 +39,7 @@ def has (what : List String) (w : String) : Bool := what.contains w
 def encPlans (sm : MP.SplineModel) (objs : List MP.Obj) : Val :=
   let spec := plansOfObjs objs
   let cat := sm.plans
-  let agree := spec.length == cat.length && (List.zip spec cat).all fun ab => ab.1.same ab.2
+  let agree := plansAgreeB cat spec
   .list [Val.ofBool agree, Val.ofBool (starOK spec (geomArrays objs)), Val.ofBool (wellOrderedB spec && noJunkB spec),
     .list (spec.map fun p => .list (p.faces.map fun f =>
     .list [Val.ofBool f.owned, Val.ofNat ((f.src.map (·.top)).getD 0),
@@ -54,9 +55,9 @@ def run (sm : MP.SplineModel) (objs : List MP.Obj) (ktol : ℚ) (names : List St
       | .error e => nerr e
     else .str "skip"
   let ntops := Val.ofNat sm.tops.length
-  if !(has what "num") then .list [ntops, .str "skip", .str "skip", .str "skip", .str "skip", .str "skip", ifem, plans]
+  if !(has what "num") then .list [ntops, .str "skip", .str "skip", .str "skip", .str "skip", .str "skip", ifem, plans, .str "skip"]
   else match sm.generateCpNumbers with
-  | .error e => .list [ntops, nerr e, .str "skip", .str "skip", .str "skip", .str "skip", ifem, plans]
+  | .error e => .list [ntops, nerr e, .str "skip", .str "skip", .str "skip", .str "skip", ifem, plans, .str "skip"]
   | .ok r =>
     let lm := labelMap sm.cat
     let lowerNums := Val.list ((List.range' 1 (sm.pardim - 1)).flatMap fun d =>
@@ -70,6 +71,11 @@ def run (sm : MP.SplineModel) (objs : List MP.Obj) (ktol : ℚ) (names : List St
       else .str "skip"
     let r := r.generateCellNumbers ktol
     let cells := Val.list [Val.ofNat r.ncells, .list (r.cells.toList.map encIntArr)]
+    let fguard := if has what "faces" then
+        match r.assignNames names with
+        | .error _ => Val.ofBool false
+        | .ok r' => Val.ofBool (r'.facesGuardB ktol)
+      else .str "skip"
     let (faces, ofoam) :=
       if !(has what "faces") then (Val.str "skip", Val.str "skip")
       else match r.assignNames names with
@@ -85,7 +91,7 @@ def run (sm : MP.SplineModel) (objs : List MP.Obj) (ktol : ℚ) (names : List St
                .list (o.entries.map fun e => .list [.str e.1, Val.ofNat e.2.1, Val.ofNat e.2.2]),
                Val.ofNat o.declared, Val.ofNat o.ninternal]
            else .str "skip")
-    .list [ntops, num, cps, cells, faces, ofoam, ifem, plans]
+    .list [ntops, num, cps, cells, faces, ofoam, ifem, plans, fguard]
 
 def handle : Handler
   | "c18_model", [pd, dim, objs, ktol, names, what, twins] => some <| Id.run do
